@@ -465,4 +465,50 @@ def udpObs (s : UdpSt) : UdpObs :=
   { ret := s.returned, tun := s.enc.flushes.flatten, udp := s.dec.out, nread := s.enc.nread,
     serr := s.enc.serr, rerr := s.dec.rerr, sent := s.enc.sent, recv := s.dec.recv }
 
+/-! ## SOCKS5 UDP-ASSOCIATE tunnel codec (internal/client/socks5_tunnel.go, `udpTunnelConn`)
+
+The listen-side end of the same length-prefixed stream: `SendPacket` writes prefix and payload,
+`ReceivePacket` reads them back with two `io.ReadFull` calls. Its peer is the target client's
+`iocopy.UDP`, which batches datagrams: several records arrive in ONE Read of the tunnel stream. -/
+
+/-- `SendPacket`: `writer.Write(lenBuf)`, `writer.Write(data)` with `lenBuf = {byte(len>>8), byte(len&0xFF)}`. -/
+def sendPacket (d : Bytes) : List Bytes :=
+  [[UInt8.ofNat (d.length / 256), UInt8.ofNat d.length], d]
+
+inductive S5Stop where
+  | len          -- ReadFull of the 2-byte prefix failed ("failed to read packet length")
+  | data         -- ReadFull of the payload failed ("failed to read packet data")
+  | tooLarge     -- "packet too large" (cannot happen with a 2-byte prefix)
+  | fuel         -- model only: never reported (see `C12_s5_terminates`)
+deriving DecidableEq, Repr, Inhabited
+
+inductive S5Res where
+  | pkt (d : Bytes) (rest : Src)
+  | fail (st : S5Stop)
+deriving DecidableEq, Repr
+
+/-- One `ReceivePacket` call on the tunnel reader. -/
+def receivePacket (s : Src) : S5Res :=
+  match s.readFull 2 with
+  | .short _ _ => .fail .len
+  | .ok hdr r1 =>
+    let n := (hdr.getD 0 0).toNat * 256 + (hdr.getD 1 0).toNat
+    if n > 65535 then .fail .tooLarge
+    else match r1.readFull n with
+      | .short _ _ => .fail .data
+      | .ok d r2 => .pkt d r2
+
+structure S5Obs where
+  pk : List Bytes
+  stop : S5Stop
+deriving DecidableEq, Repr
+
+/-- The receive loop: `ReceivePacket` until it fails. -/
+def recvAll : Nat → Src → S5Obs
+  | 0, _ => ⟨[], .fuel⟩
+  | f + 1, s =>
+    match receivePacket s with
+    | .fail st => ⟨[], st⟩
+    | .pkt d r => ⟨d :: (recvAll f r).pk, (recvAll f r).stop⟩
+
 end Tunnox.C12
